@@ -639,6 +639,22 @@ def _assembly_cases(ctx, reqs, pend):
             if not (np.array_equal(v0.array, v1.array) and np.array_equal(v0.affine, v1.affine)):
                 ctx.fail(case, {'what': 'volume depends on the order of the frames', 'affine0': v0.affine.tolist(), 'affine1': v1.affine.tolist()},
                          site='Image.get_volume')
+            # model: geometry and frame placement (L0 through get_volume_geometry; L2 through the private helper)
+            fpos = [[float(x) for x in it.PlanePositionSequence[0].ImagePositionPatient] for it in shuffled.PerFrameFunctionalGroupsSequence]
+            sbs = float(shuffled.SharedFunctionalGroupsSequence[0].PixelMeasuresSequence[0].SpacingBetweenSlices)
+            im1 = hd.Image.from_dataset(shuffled, copy=False)
+            helper = getattr(im1, '_get_stacked_volume_geometry', None)
+            if helper is not None:
+                stg, res = _call(helper)
+                if stg == 'ok':
+                    geom, fps = res
+                    reqs.append(('assembleFrames', {'positions': [RL(p) for p in fpos], 'ori': RL(ori), 'hint': R(sbs)}))
+                    pend.append((dict(case, fn='_get_stacked_volume_geometry', layer='L2'),
+                                 ('frames', float(geom.spacing[0]), [float(x) for x in geom.position], int(geom.spatial_shape[0]),
+                                  [int(v) for _, v in sorted(fps)]), False))
+            reqs.append(('assembleFrames', {'positions': [RL(p) for p in fpos], 'ori': RL(ori), 'hint': R(sbs)}))
+            pend.append((dict(case, fn='Image.get_volume'),
+                         ('frames', float(v1.spacing[0]), [float(x) for x in v1.position], int(v1.spatial_shape[0]), None), False))
             fr = np.frombuffer(shuffled.PixelData[:nsl * rows * cols * 2], dtype=np.uint16).reshape(nsl, rows, cols)
             for k in range(nsl):
                 want_pos = v1.map_indices_to_reference(np.array([[k, 0, 0]]))[0]
@@ -668,6 +684,16 @@ def _compare(ctx, reqs, pend, pend2):
                         any(abs(Fr(a) - _fr(b)) > TOL * 4096 * (1 + abs(_fr(b))) for a, b in zip(obs[2], m['position'])) or \
                         (obs[3] is not None and obs[3] != m['order']):
                     ctx.disagree('L0', case, obs, ans, 'assembly')
+            elif obs[0] == 'frames':
+                layer = case.get('layer', 'L0')
+                if 'ok' not in ans:
+                    ctx.disagree(layer, case, obs, ans, 'ok-vs-error')
+                    continue
+                m = ans['ok']
+                if abs(Fr(obs[1]) - _fr(m['spacing'])) > TOL * 4096 * max(1, abs(_fr(m['spacing']))) or \
+                        any(abs(Fr(a) - _fr(b)) > TOL * 4096 * (1 + abs(_fr(b))) for a, b in zip(obs[2], m['position'])) or \
+                        obs[3] != m['slices'] or (obs[4] is not None and obs[4] != m['frame_slices']):
+                    ctx.disagree(layer, case, obs, ans, 'frame assembly')
             elif obs[0] == 'sortidx':
                 if 'ok' not in ans or [int(x) for x in obs[1]] != ans['ok']:
                     ctx.disagree('L0', case, obs, ans, 'sort index')
